@@ -2,11 +2,14 @@ module verif
 
 go 1.25.0
 
-require github.com/open2b/scriggo v0.0.0
+require (
+	github.com/open2b/scriggo v0.0.0
+	github.com/yuin/goldmark v1.7.16
+)
 
 require (
 	golang.org/x/net v0.34.0
-	gopkg.in/yaml.v3 v3.0.1 // indirect
+	gopkg.in/yaml.v3 v3.0.1
 )
 
 replace github.com/open2b/scriggo => /repo
